@@ -178,7 +178,21 @@ function __probe(text, path) {
 			illformed = true
 			class = "illformed-utf8"
 		}
+		// every name that ends in ".json" is data, whatever stands before the dot (nothing, another dot, another extension)
 		path := fmt.Sprintf("/m/f%d.json", c)
+		switch r.Intn(12) {
+		case 0:
+			path = fmt.Sprintf("/m/d%d/.json", c)
+		case 1:
+			path = fmt.Sprintf("/m/d%d/..json", c)
+		case 2:
+			path = fmt.Sprintf("/m/f%d.js.json", c)
+		case 3:
+			path = fmt.Sprintf("/m/.f%d.json", c)
+		case 4:
+			path = fmt.Sprintf("/m/f%d.min.v2.json", c)
+		}
+		out.Count("file_name", map[bool]string{true: "plain", false: "dotted"}[strings.HasPrefix(path, "/m/f") && strings.Count(path, ".") == 1])
 		files[path] = []byte(content)
 		vm.Set("__text", content)
 		vm.Set("__path", path)
